@@ -24,6 +24,7 @@ struct State {
   bool active = false;
   std::deque<Ev> script;
   std::map<long long, long long> faults;   // set-up call index -> errno
+  std::vector<std::pair<long long, long long>> rules;   // (-(100 * from + which), errno) in file order: see vos.cpp setup()
   long long nsys = 0;
   long long now_ns = 0;
   int nextfd = VFD_BASE;
